@@ -235,6 +235,13 @@ HAND = [
     "R 0 1,I 0 0,X 0 0 1,T 90000,T 90000,T 90000,T 1000000,T 60000000",
     # 10 KiB/s, ten minutes with the only connection active but idle, then demand: burst must stay fixed
     "R 0 10240,T 1000000,T 1000000,I 0 0," + ",".join(["T 10000000"] * 60) + ",X 0 0 1048576,X 0 0 1048576,X 0 0 1048576,T 1000000,X 0 0 1048576",
+    # NOTE (efficiency quirk, not a violation of any clause of C12): every slave throttle soaks up about two ticks'
+    # worth of quota (unused-unthrottled, then unallocated) before it starts handing the excess back, and an idle
+    # rate-0 slave asks for the whole tick quota (5638f7b). While that warm-up lasts the root list is served only on
+    # alternate ticks: below, the root connection misses 3 of the first 6 ticks and then runs at the full rate
+    # (real code: deact,x=100000,deact,x=100000,deact,x=100000,x=100000,...). The upper bound, the fixed burst and
+    # bounded reactivation (cursor_reaches_every_list) all hold; only throughput during <= 2*(slaves+1) ticks is lost.
+    "S,R 0 100000,I 0 0," + ",".join(["T 1000000,X 0 0 999999"] * 9),
     # same with no connection at all during the idle phase
     "R 0 10240," + ",".join(["T 10000000"] * 30) + ",I 0 0,X 0 0 1048576,X 0 0 1048576",
 ]
